@@ -43,7 +43,7 @@ fn n_asn1(t: Tier) -> usize {
 fn n_fault_docs(t: Tier) -> usize {
     t.pick(2, 40) * (PK_ENCS.len() + SK_ENCS.len() + 1)
 }
-const N_SEMANTIC: usize = 2;
+pub const N_SEMANTIC: usize = 3;
 pub fn runs_c19(t: Tier) -> usize {
     1 + n_dist(t) + n_asn1(t) + n_fault_docs(t) * CHUNKS + N_SEMANTIC
 }
@@ -76,6 +76,97 @@ pub fn semantic_docs(p: &mut Prng, w: &mut World, which: usize) {
                         w.exec(json!({"op":"doc.sk.read","impl":"lib","enc":"sec1-der","doc":"sd.doc"}));
                     }
                 }
+            }
+        }
+        // a well-formed PKCS#8 / SEC1 document whose embedded public key is ANOTHER valid point:
+        // whatever the decoder does with it, the key it returns must carry [d]G
+        let (d2, _) = scalar_class(p, &n);
+        let other = rsm2::with_curve(|c| c.encode_point(&c.mul_g(&d2), false));
+        let da = be32(&d);
+        for doc in [der::pkcs8_build_raw(&da, Some(&other)), pem_wrap("PRIVATE KEY", &der::pkcs8_build_raw(&da, Some(&other)))] {
+            let enc = if doc.starts_with(b"-----") { "pkcs8-pem" } else { "pkcs8-der" };
+            w.exec(set("sd.doc", &doc));
+            w.exec(json!({"op":"doc.sk.read","impl":"lib","enc":enc,"doc":"sd.doc"}));
+        }
+        w.exec(set("sd.doc", &der::sec1_build_raw(&da, Some(&other), true)));
+        w.exec(json!({"op":"doc.sk.read","impl":"lib","enc":"sec1-der","doc":"sd.doc"}));
+    } else if which == 2 {
+        // document shapes: CRLF / CR / no final newline / extra blank lines / one long line in PEM,
+        // empty PEM body, DER with indefinite or over-long length octets, trailing bytes
+        let da = be32(&d);
+        let spki = der::spki_build(&point);
+        let p8 = der::pkcs8_build_raw(&da, Some(&point));
+        let b64 = |der: &[u8]| -> String {
+            let s = String::from_utf8(pem_wrap("X", der)).unwrap();
+            s.lines().filter(|l| !l.starts_with("-----")).collect::<Vec<_>>().join("")
+        };
+        for (label, der_doc, kind) in [("PUBLIC KEY", spki.clone(), "pk"), ("PRIVATE KEY", p8.clone(), "sk")] {
+            let body = b64(&der_doc);
+            let wrapped: Vec<String> = body.as_bytes().chunks(64).map(|c| String::from_utf8(c.to_vec()).unwrap()).collect();
+            let begin = format!("-----BEGIN {label}-----");
+            let end = format!("-----END {label}-----");
+            let shapes: Vec<String> = vec![
+                format!("{begin}\r\n{}\r\n{end}\r\n", wrapped.join("\r\n")),
+                format!("{begin}\n{}\n{end}", wrapped.join("\n")),
+                format!("{begin}\n{}\n{end}\n\n", wrapped.join("\n")),
+                format!("{begin}\n{body}\n{end}\n"),
+                format!("{begin}\n\n{}\n{end}\n", wrapped.join("\n")),
+                format!("{begin}\r{}\r{end}\r", wrapped.join("\r")),
+                format!("{begin}\n{end}\n"),
+                format!("{begin}\n====\n{end}\n"),
+                format!("{begin}\n{}\n", wrapped.join("\n")),
+                format!("{}\n{end}\n", wrapped.join("\n")),
+                format!("  {begin}\n{}\n{end}\n", wrapped.join("\n")),
+            ];
+            for sdoc in shapes {
+                w.exec(set("sd.doc", sdoc.as_bytes()));
+                if kind == "pk" {
+                    w.exec(json!({"op":"doc.pk.read","impl":"lib","enc":"spki-pem","doc":"sd.doc","fromstr":p.chance(1,2)}));
+                } else {
+                    w.exec(json!({"op":"doc.sk.read","impl":"lib","enc":"pkcs8-pem","doc":"sd.doc"}));
+                }
+            }
+            // DER length octets: indefinite (80), long forms (81 xx, 82 00 xx, 84 00 00 00 xx), too long, trailing bytes
+            let content = {
+                let (_, c, _) = der::read_tlv(&der_doc).unwrap();
+                c.to_vec()
+            };
+            let l = content.len();
+            let mut variants: Vec<Vec<u8>> = vec![];
+            for hdr in [vec![0x30u8, 0x80], vec![0x30, 0x81, l as u8], vec![0x30, 0x82, 0, l as u8], vec![0x30, 0x84, 0, 0, 0, l as u8], vec![0x30, 0x84, 0xff, 0xff, 0xff, 0xff], vec![0x30, 0x88, 0, 0, 0, 0, 0, 0, 0, l as u8], vec![0x30, (l + 1) as u8], vec![0x30, (l - 1) as u8], vec![0x30, 0x7f], vec![0x30, 0x00]] {
+                let mut v = hdr;
+                v.extend_from_slice(&content);
+                variants.push(v);
+            }
+            let mut trailing = der_doc.clone();
+            trailing.extend_from_slice(&[0, 0]);
+            variants.push(trailing);
+            for v in variants {
+                w.exec(set("sd.doc", &v));
+                if kind == "pk" {
+                    w.exec(json!({"op":"doc.pk.read","impl":"lib","enc":"spki-der","doc":"sd.doc"}));
+                } else {
+                    w.exec(json!({"op":"doc.sk.read","impl":"lib","enc":"pkcs8-der","doc":"sd.doc"}));
+                    w.exec(json!({"op":"doc.sk.read","impl":"lib","enc":"sec1-der","doc":"sd.doc"}));
+                }
+            }
+        }
+        // the same length-octet games on a GM/T 0009 ciphertext
+        w.exec(set("sd.d", &da));
+        w.exec(json!({"op":"sm2.derive_pk","impl":"ref","d":"sd.d","pk":"sd.pk","comp":false}));
+        w.exec(set("sd.msg", &p.bytes(20)));
+        w.exec(json!({"op":"sm2.encrypt","impl":"ref","pk":"sd.pk","msg":"sd.msg","ct":"sd.ct","order":"C1C3C2","comp":false,"asn1":true,"rng":rng_json(&uniform_script(p, 1))}));
+        if let Some(ct) = w.slots.get("sd.ct").cloned() {
+            let content = {
+                let (_, c, _) = der::read_tlv(&ct).unwrap();
+                c.to_vec()
+            };
+            let l = content.len();
+            for hdr in [vec![0x30u8, 0x80], vec![0x30, 0x81, l as u8], vec![0x30, 0x82, 0, l as u8], vec![0x30, 0x84, 0, 0, 0, l as u8], vec![0x30, 0x84, 0xff, 0xff, 0xff, 0xff], vec![0x30, (l + 1) as u8], vec![0x30, 0x00]] {
+                let mut v = hdr;
+                v.extend_from_slice(&content);
+                w.exec(set("sd.ct", &v));
+                w.exec(json!({"op":"sm2.decrypt","impl":"lib","d":"sd.d","ct":"sd.ct","order":"C1C3C2","comp":false,"asn1":true}));
             }
         }
     } else {
